@@ -154,6 +154,14 @@ CONTRACTS = {
         raises={'ValueError': "k < 1 or not (op == '==' or op == '<' or op == '>' or op == '<=' or op == '>=' or op == '!=')"}),
     ('cnfgen/localtypes.py', 'one_of_values'): {'inline_always': True},
     ('cnfgen/localtypes.py', 'any_int'): {'inline_always': True},
+    # exactly one of the block
+    (S, 'ExactlyOneSubstitution.oneify'): dict(
+        gadget('count(a, {}) == 1'.format(BLOCK)),
+        loops={0: {'ghost_at_entry': {'C0': 'temp._clauses', 'L0': 'nvars'},
+                   'inv': ['temp._clauses == capp(C0, neqprefix(L0, 1, _it))', 'nvars == L0', 'temp._numvar >= 0',
+                           'cmaxabs(temp._clauses) <= temp._numvar', 'not chaszero(temp._clauses)'],
+                   'modifies_objects': ['temp'], 'modifies_fields': {'temp': ['_clauses', '_numvar']}}}),
+    (S, 'ExactlyOneSubstitution'): wrapper('oneify', 'count(a, {B}) == 1'),
     # polarity flip: same variables, every literal negated
     (S, 'FlipPolarity.subst'): {
         'property': ['C05', 'C10'], 'params': {'lit': 'int'}, 'closure_vars': {}, 'ghost_params': {'a': 'asg'},
